@@ -828,6 +828,13 @@ pub fn run_blobreuse(rng: &mut Rng) -> String {
         };
         out.push_str(&ex.exec(&HOp::WIns { k, sz: 's', force: true }));
         out.push('\n');
+        if i + 1 == per_block + extra {
+            // the first block is full (two blobs): every claimed key must be loadable from where the index says
+            ex.skip_loads = false;
+            out.push_str(&ex.exec(&HOp::Wait));
+            out.push('\n');
+            ex.skip_loads = true;
+        }
         let ws = ex.sim.log_since(seen);
         seen = ex.sim.next_id();
         let mut stop = false;
@@ -846,6 +853,10 @@ pub fn run_blobreuse(rng: &mut Rng) -> String {
         }
     }
     ex.skip_loads = false;
+    // one observation of the live store (every key the disk tier claims must be loadable from where the index says;
+    // later blobs of a block sit behind the first one), then the restart
+    out.push_str(&ex.exec(&HOp::Wait));
+    out.push('\n');
     out.push_str(&ex.exec(&HOp::Reopen));
     out.push('\n');
     for k in 0..keys {
